@@ -4,8 +4,10 @@ import common, subjects
 SPEC = dict(modules=["MemVerif.Props.C08"], gen_cfgs=("rwdi",),
             assumptions=["live allocations of a sibling allocator lie in the sibling's upstream blocks, which are disjoint from this allocator's "
                          "blocks (EnvOk; the instrumented upstream places blocks directly adjacent so the boundary cases occur)",
-                         "memory_stack / iteration_allocator composable traits only test ownership (they release nothing); covered by the arena-"
-                         "level theorems, not driven by a harness yet"])
+                         "memory_stack / iteration_allocator composable traits only test ownership (they release nothing): theorems "
+                         "C08_stack_recognises_own / C08_iter_recognises_own / C08_iter_contains_next / C08_iter_foreign, and the stack/iter "
+                         "harness probes try_deallocate_node/array with live allocations of every iteration / block and with pointers around "
+                         "the block boundaries"])
 
 
 def run(ctx):
@@ -13,11 +15,15 @@ def run(ctx):
                      ["1" if ctx.thorough else "0", ctx.seed], ["cmp"], subject="compose", ignore_known=("D24",))
     n = 16 if ctx.thorough else 3
     st = subjects.run(ctx, "C08", subjects.POOL + subjects.COLL, ["rwdi", "dbg"], n, 150)
+    st.update(subjects.run(ctx, "C08", subjects.STACK + subjects.ITER, ["rwdi", "dbg"], n, 150))
     ctx.coverage["foreign_try_deallocations"] = sum(v.get("foreign", 0) for v in st.values())
     ctx.coverage["rule"] = ("(1) pools and collections (3 list types, identity/log2) on the instrumented upstream with sibling blocks placed directly "
                             "before / after their own blocks: try_deallocate_node/array with own live memory (must return true and release) and with "
                             "pointers into the sibling's blocks (must return false and leave the state dump unchanged), interleaved with ordinary "
                             "traffic, compared with the model; (2) fallback_allocator compositions (plain, nested with a leaf lacking array "
                             "members, over aligned and tracked sub-allocators, inside storages) with the default running full and empty again: "
-                            "every release observed at the leaves must reach the leaf that served the allocation with the same call shape")
+                            "every release observed at the leaves must reach the leaf that served the allocation with the same call shape; "
+                            "(3) memory_stack (3 sources) and iteration_allocator<1..5>: composable try_deallocate_node/array probed with live "
+                            "allocations from every block / every iteration (after wrap-around of the iteration counter) - must be true - and "
+                            "with the bytes just outside the blocks - must be false; state unchanged; answers compared with the model")
     subjects.sample(ctx, st, 2)
